@@ -1,2 +1,3 @@
 import KoalaVerif.Model.Json
 import KoalaVerif.Model.Lattice
+import KoalaVerif.Model.Flux
